@@ -153,6 +153,52 @@ class HWalker(Walker):
         return out
 
 
+    # -- conditional expressions around inlinable calls fork the path like an if statement ---------------------------------------
+    def expand_calls(self, node, st, done):
+        if node is not None and self.inline_mode == 'all':
+            for n in ast.walk(node):
+                if not isinstance(n, ast.IfExp):
+                    continue
+                inl = lambda sub: any(isinstance(m, ast.Call) and self.inline_target(m, st) is not None for m in ast.walk(sub))
+                if not (inl(n.body) or inl(n.orelse)) or inl(n.test):
+                    continue
+                test = self.sym(n.test, st)
+                d = self.decide(test, st)
+                out = []
+                for pol in (True, False):
+                    if d is not None and d != pol:
+                        continue
+                    s2 = st.clone() if d is None else st
+                    if d is None:
+                        self.assume(test, pol, s2)
+                        s2.conds.append((test, pol, n))
+                        s2.events.append(('cond', test, pol, n))
+                    out.extend(self.expand_calls(_replace(node, n, n.body if pol else n.orelse), s2, done))
+                return out
+        return super().expand_calls(node, st, done)
+
+
+def _replace(root, old, new):
+    """A copy of expression `root` in which the sub-expression `old` is replaced by `new` (other nodes are shared)."""
+    if root is old:
+        return new
+
+    class R(ast.NodeTransformer):
+        def generic_visit(self, n):
+            # rebuild only the spine that leads to `old`
+            if not any(m is old for m in ast.walk(n)):
+                return n
+            c = type(n)(**{f: getattr(n, f) for f in n._fields if hasattr(n, f)})
+            ast.copy_location(c, n) if hasattr(n, 'lineno') else None
+            for f, val in ast.iter_fields(n):
+                if isinstance(val, list):
+                    setattr(c, f, [new if x is old else (self.visit(x) if isinstance(x, ast.AST) else x) for x in val])
+                elif isinstance(val, ast.AST):
+                    setattr(c, f, new if val is old else self.visit(val))
+            return c
+    return R().visit(root)
+
+
 def function_paths(facts, fn, inline='all', opaque=(), name_results=False, max_paths=20000):
     """Every path through the body of `fn` (a FunctionDef: module-level function, method or nested function) with its parameters
     symbolic.  Returns (walker, [PathState])."""
